@@ -1,12 +1,595 @@
 package gpbftsim
 
-import "github.com/filecoin-project/go-f3/gpbft"
+import (
+	"bytes"
+	"errors"
+	"fmt"
 
-// validatorOracle implements the C05 / C13 checks on sampled deliveries (see valoracle_*.go).
+	"github.com/filecoin-project/go-bitfield"
+	"github.com/filecoin-project/go-f3/gpbft"
+	"github.com/filecoin-project/go-f3/pmsg"
+)
+
+// validatorOracle implements the C05 and C13 checks on sampled deliveries and on forged
+// variants derived from them. The reference validator below is written from the property
+// text; only implications are required (accept => valid, valid => not branded invalid,
+// valid and relevant => accept), plus history independence against a fresh validator.
 type validatorOracle struct {
-	w *World
+	w   *World
+	pmm *pmsg.PartialMessageManager
 }
 
-func newValidatorOracle(w *World) *validatorOracle { return &validatorOracle{w: w} }
+func newValidatorOracle(w *World) *validatorOracle {
+	return &validatorOracle{w: w, pmm: new(pmsg.PartialMessageManager)}
+}
 
-func (vo *validatorOracle) sample(to *Member, dl *delivery, msg *gpbft.GMessage, err error) {}
+// ---- reference validator -----------------------------------------------------------------
+
+func refChainWellFormed(c *gpbft.ECChain) bool {
+	if c.IsZero() {
+		return true
+	}
+	if len(c.TipSets) > gpbft.ChainMaxLen {
+		return false
+	}
+	last := int64(-1)
+	for _, ts := range c.TipSets {
+		if ts == nil || len(ts.Key) == 0 || len(ts.Key) > gpbft.TipsetKeyMaxLen || !ts.PowerTable.Defined() || ts.PowerTable.ByteLen() > gpbft.CidMaxLen {
+			return false
+		}
+		if ts.Epoch <= last {
+			return false
+		}
+		last = ts.Epoch
+	}
+	return true
+}
+
+// refValid decides protocol validity of m from the property text. known=false when the
+// committee of the instance is not available (then nothing is required).
+func (vo *validatorOracle) refValid(m *gpbft.GMessage) (valid, known bool, why string) {
+	w := vo.w
+	if m == nil {
+		return false, true, "nil"
+	}
+	info := w.instance(m.Vote.Instance)
+	if info == nil {
+		return false, false, "no committee"
+	}
+	sp := info.Scaled[m.Sender]
+	idx, inTable := info.Table.Lookup[m.Sender]
+	if !inTable || sp <= 0 {
+		return false, true, "sender without power"
+	}
+	pub := info.Table.Entries[idx].PubKey
+	v := m.Vote.Value
+	if !refChainWellFormed(v) {
+		return false, true, "malformed value"
+	}
+	bottom := v.IsZero()
+	switch m.Vote.Phase {
+	case gpbft.QUALITY_PHASE:
+		if m.Vote.Round != 0 || bottom {
+			return false, true, "quality constraints"
+		}
+	case gpbft.CONVERGE_PHASE:
+		if m.Vote.Round == 0 || bottom {
+			return false, true, "converge constraints"
+		}
+		if !gpbft.VerifyTicket(w.nn, info.Beacon, m.Vote.Instance, m.Vote.Round, pub, w.sig, m.Ticket) {
+			return false, true, "ticket"
+		}
+	case gpbft.DECIDE_PHASE:
+		if m.Vote.Round != 0 || bottom {
+			return false, true, "decide constraints"
+		}
+	case gpbft.PREPARE_PHASE, gpbft.COMMIT_PHASE:
+	default:
+		return false, true, "phase"
+	}
+	if w.sig.Verify(pub, m.Vote.MarshalForSigning(w.nn), m.Signature) != nil {
+		return false, true, "signature"
+	}
+	needs := !(m.Vote.Phase == gpbft.QUALITY_PHASE ||
+		(m.Vote.Phase == gpbft.PREPARE_PHASE && m.Vote.Round == 0) ||
+		(m.Vote.Phase == gpbft.COMMIT_PHASE && bottom))
+	j := m.Justification
+	if !needs {
+		if j != nil {
+			return false, true, "unexpected justification"
+		}
+		return true, true, ""
+	}
+	if j == nil {
+		return false, true, "missing justification"
+	}
+	if j.Vote.Instance != m.Vote.Instance || !j.Vote.SupplementalData.Eq(&m.Vote.SupplementalData) {
+		return false, true, "justification instance/supplement"
+	}
+	if !refChainWellFormed(j.Vote.Value) {
+		return false, true, "justification value malformed"
+	}
+	// prescribed step, round and value
+	ok := false
+	switch m.Vote.Phase {
+	case gpbft.CONVERGE_PHASE, gpbft.PREPARE_PHASE:
+		switch j.Vote.Phase {
+		case gpbft.COMMIT_PHASE:
+			ok = j.Vote.Round == m.Vote.Round-1 && j.Vote.Value.IsZero()
+		case gpbft.PREPARE_PHASE:
+			ok = j.Vote.Round == m.Vote.Round-1 && tipsetsEqual(j.Vote.Value, v)
+		}
+	case gpbft.COMMIT_PHASE:
+		ok = j.Vote.Phase == gpbft.PREPARE_PHASE && j.Vote.Round == m.Vote.Round && tipsetsEqual(j.Vote.Value, v)
+	case gpbft.DECIDE_PHASE:
+		ok = j.Vote.Phase == gpbft.COMMIT_PHASE && tipsetsEqual(j.Vote.Value, v)
+	}
+	if !ok {
+		return false, true, "justification step/round/value"
+	}
+	// strong quorum of non-zero-power committee members, aggregate verifies
+	var power int64
+	var idxs []int
+	bad := false
+	_ = j.Signers.ForEach(func(i uint64) error {
+		if i >= uint64(len(info.Table.Entries)) {
+			bad = true
+			return nil
+		}
+		p := info.Scaled[info.Table.Entries[i].ID]
+		if p <= 0 {
+			bad = true
+			return nil
+		}
+		power += p
+		idxs = append(idxs, int(i))
+		return nil
+	})
+	if bad {
+		return false, true, "justification signer"
+	}
+	if !isStrong(power, info.T) {
+		return false, true, "justification quorum"
+	}
+	if info.Agg.VerifyAggregate(idxs, j.Vote.MarshalForSigning(w.nn), j.Signature) != nil {
+		return false, true, "justification aggregate"
+	}
+	return true, true, ""
+}
+
+// refRelevant is the documented relevance window.
+func (vo *validatorOracle) refRelevant(m *gpbft.GMessage, cur gpbft.InstanceProgress) bool {
+	k := m.Vote.Instance
+	switch {
+	case k >= cur.ID+vo.w.cfg.CommitteeLookback:
+		return false
+	case k > cur.ID:
+		return true
+	case k+1 == cur.ID:
+		return m.Vote.Phase == gpbft.DECIDE_PHASE
+	case k == cur.ID:
+		if cur.Phase == gpbft.DECIDE_PHASE && m.Vote.Phase != gpbft.DECIDE_PHASE {
+			return false
+		}
+		return m.Vote.Phase == gpbft.QUALITY_PHASE || m.Vote.Phase == gpbft.DECIDE_PHASE || m.Vote.Round+1 >= cur.Round
+	}
+	return false
+}
+
+// ---- C05 ----------------------------------------------------------------------------------
+
+func (vo *validatorOracle) fresh(to *Member) *gpbft.VerifValidator {
+	return gpbft.VerifNewValidator(vo.w.nn, to.host, to.host, to.part.Progress, vo.w.cfg.CommitteeLookback)
+}
+
+// judge checks one message against the reference and a fresh validator. cls is the verdict
+// class of the long-lived participant.
+func (vo *validatorOracle) judge(to *Member, m *gpbft.GMessage, cls string, verr error, what string) {
+	w := vo.w
+	var pe *gpbft.PanicError
+	if errors.As(verr, &pe) {
+		w.fail("C05", "validator_panicked", "panic", "validating %s (%s) panicked: %.300s", msgStr(m), what, verr.Error())
+		return
+	}
+	cur := to.part.Progress()
+	_, ferr := vo.fresh(to).ValidateMessage(w.ctx, cloneOrSame(m))
+	fcls := errClass(ferr)
+	if fcls != cls {
+		w.fail("C05", "verdict_depends_on_history", cls+"/"+fcls, "%s: participant %d (progress %d/%d/%s) says %q, a validator with an empty cache says %q for %s",
+			what, to.ID, cur.ID, cur.Round, cur.Phase, cls, fcls, msgStr(m))
+		return
+	}
+	valid, known, why := vo.refValid(m)
+	if !known {
+		return
+	}
+	rel := vo.refRelevant(m, cur)
+	switch {
+	case cls == "accept" && !valid:
+		w.fail("C05", "invalid_message_accepted", why, "%s: participant %d accepted %s although it is not valid (%s)", what, to.ID, msgStr(m), why)
+	case valid && cls == "invalid":
+		w.fail("C05", "valid_message_branded_invalid", "invalid", "%s: participant %d (progress %d/%d/%s) branded the valid message %s invalid: %v", what, to.ID, cur.ID, cur.Round, cur.Phase, msgStr(m), verr)
+	case valid && rel && cls != "accept":
+		w.fail("C05", "valid_relevant_message_refused", cls, "%s: participant %d (progress %d/%d/%s) refused the valid, relevant message %s: %v", what, to.ID, cur.ID, cur.Round, cur.Phase, msgStr(m), verr)
+	}
+	if valid && !rel {
+		w.r.Probe("c05_valid_irrelevant")
+	}
+	if !valid && cls != "accept" {
+		w.r.Probe("c05_invalid_refused")
+	}
+}
+
+func cloneOrSame(m *gpbft.GMessage) *gpbft.GMessage {
+	if c := cloneMsg(m); c != nil {
+		return c
+	}
+	return m
+}
+
+func copyMsg(m *gpbft.GMessage) *gpbft.GMessage {
+	cp := *m
+	cp.Signature = append([]byte(nil), m.Signature...)
+	cp.Ticket = append([]byte(nil), m.Ticket...)
+	if m.Justification != nil {
+		j := *m.Justification
+		j.Signature = append([]byte(nil), m.Justification.Signature...)
+		cp.Justification = &j
+	}
+	return &cp
+}
+
+// forge derives a near-valid variant of an observed message. Returns nil if no variant applies.
+func (vo *validatorOracle) forge(m *gpbft.GMessage) (*gpbft.GMessage, string) {
+	w, c := vo.w, vo.w.c
+	x := copyMsg(m)
+	info := w.instance(m.Vote.Instance)
+	if info == nil {
+		return nil, ""
+	}
+	// optionally let a Byzantine member be the sender, so that its own signature is genuine
+	var byzSender *Member
+	if w.byz != nil && len(w.byz.members) > 0 && c.Chance(600) {
+		b := w.byz.members[c.Intn(len(w.byz.members))]
+		if info.Scaled[b.ID] > 0 {
+			byzSender = b
+			x.Sender = b.ID
+		}
+	}
+	what := ""
+	other := func() *gpbft.ECChain {
+		if w.byz != nil {
+			if v := w.byz.pickValue(m.Vote.Instance, m.Vote.Phase, false); v != nil {
+				return v
+			}
+		}
+		if info.Base != nil {
+			return &gpbft.ECChain{TipSets: []*gpbft.TipSet{info.Base, mkTipset(info.Base.Epoch+7, "oracle-other")}}
+		}
+		return nil
+	}
+	switch c.Intn(18) {
+	case 0:
+		x.Sender = gpbft.ActorID(len(w.members) + 5 + c.Intn(3))
+		byzSender = nil
+		what = "sender outside the committee"
+	case 1:
+		for _, mm := range w.members {
+			if _, in := info.Table.Lookup[mm.ID]; in && info.Scaled[mm.ID] == 0 {
+				x.Sender = mm.ID
+				byzSender = nil
+				what = "sender with zero scaled power"
+			}
+		}
+		if what == "" {
+			return nil, ""
+		}
+	case 2:
+		x.Vote.Round += uint64(1 + c.Intn(2))
+		what = "round shifted"
+	case 3:
+		x.Vote.Instance++
+		what = "instance shifted"
+	case 4:
+		x.Vote.Phase = []gpbft.Phase{gpbft.QUALITY_PHASE, gpbft.CONVERGE_PHASE, gpbft.PREPARE_PHASE, gpbft.COMMIT_PHASE, gpbft.DECIDE_PHASE, 9}[c.Intn(6)]
+		what = "phase replaced"
+	case 5:
+		x.Vote.Value = other()
+		what = "value replaced"
+	case 6:
+		x.Vote.Value = &gpbft.ECChain{}
+		what = "value replaced by bottom"
+	case 7:
+		if x.Vote.Value.Len() < 2 {
+			return nil, ""
+		}
+		ts := append([]*gpbft.TipSet(nil), x.Vote.Value.TipSets...)
+		bad := *ts[len(ts)-1]
+		switch c.Intn(3) {
+		case 0:
+			bad.Epoch = ts[len(ts)-2].Epoch
+		case 1:
+			bad.Key = nil
+		case 2:
+			bad.Key = bytes.Repeat([]byte{1}, gpbft.TipsetKeyMaxLen+1)
+		}
+		ts[len(ts)-1] = &bad
+		x.Vote.Value = &gpbft.ECChain{TipSets: ts}
+		what = "malformed chain"
+	case 8:
+		x.Vote.SupplementalData.Commitments[3] ^= 0x55
+		what = "supplemental data of the vote changed"
+	case 9:
+		if x.Justification == nil {
+			return nil, ""
+		}
+		x.Justification = nil
+		what = "justification removed"
+	case 10:
+		if x.Justification != nil || w.byz == nil {
+			return nil, ""
+		}
+		for _, j := range w.byz.justs[m.Vote.Instance] {
+			x.Justification = j
+			break
+		}
+		if x.Justification == nil {
+			return nil, ""
+		}
+		what = "justification added where none is allowed"
+	case 11:
+		if x.Justification == nil {
+			return nil, ""
+		}
+		x.Justification.Vote.Round++
+		what = "justification round changed"
+	case 12:
+		if x.Justification == nil {
+			return nil, ""
+		}
+		x.Justification.Vote.Value = other()
+		what = "justification value changed"
+	case 13:
+		if x.Justification == nil {
+			return nil, ""
+		}
+		x.Justification.Vote.SupplementalData.Commitments[1] ^= 0x11
+		what = "justification supplemental data changed"
+	case 14:
+		if x.Justification == nil {
+			return nil, ""
+		}
+		// drop one signer
+		var idx []uint64
+		_ = x.Justification.Signers.ForEach(func(i uint64) error { idx = append(idx, i); return nil })
+		if len(idx) < 2 {
+			return nil, ""
+		}
+		drop := c.Intn(len(idx))
+		bf := bitfield.New()
+		for i, v := range idx {
+			if i != drop {
+				bf.Set(v)
+			}
+		}
+		x.Justification.Signers = bf
+		what = "one signer removed from the justification"
+	case 15:
+		if x.Justification == nil {
+			return nil, ""
+		}
+		bf, _ := x.Justification.Signers.Copy()
+		bf.Set(uint64(len(info.Table.Entries) + c.Intn(3)))
+		x.Justification.Signers = bf
+		what = "out-of-range signer added"
+	case 16:
+		if len(x.Signature) == 0 {
+			return nil, ""
+		}
+		x.Signature[c.Intn(len(x.Signature))] ^= 1 << uint(c.Intn(8))
+		byzSender = nil
+		what = "signature bit flipped"
+	case 17:
+		if x.Vote.Phase != gpbft.CONVERGE_PHASE || len(x.Ticket) == 0 {
+			return nil, ""
+		}
+		x.Ticket[c.Intn(len(x.Ticket))] ^= 1 << uint(c.Intn(8))
+		what = "ticket bit flipped"
+		byzSender = nil
+	}
+	if byzSender != nil {
+		// re-sign with the Byzantine sender's own key so that only the intended defect remains
+		x.Signature = w.byz.sign(byzSender, x.Vote.MarshalForSigning(w.nn))
+		if x.Vote.Phase == gpbft.CONVERGE_PHASE {
+			mb := &gpbft.MessageBuilder{NetworkName: w.nn, PowerTable: info.Table, Payload: x.Vote, BeaconForTicket: info.Beacon}
+			if sb, err := mb.PrepareSigningInputs(byzSender.ID); err == nil && sb.VRFToSign != nil && what != "ticket bit flipped" {
+				x.Ticket = w.byz.sign(byzSender, sb.VRFToSign)
+			}
+		}
+		what += " (re-signed by faulty member " + fmt.Sprint(byzSender.ID) + ")"
+	}
+	return x, what
+}
+
+func (vo *validatorOracle) sample(to *Member, dl *delivery, msg *gpbft.GMessage, err error) {
+	w := vo.w
+	switch w.prop {
+	case "C05":
+		vo.judge(to, msg, errClass(err), err, "delivered message")
+		if w.viol != nil || !w.c.Chance(250) {
+			return
+		}
+		n := 1 + w.c.Intn(3)
+		for i := 0; i < n && w.viol == nil; i++ {
+			x, what := vo.forge(msg)
+			if x == nil {
+				continue
+			}
+			w.r.Fault("forged_variant")
+			// warm cache: the valid twin was validated just before; optionally again afterwards
+			_, verr := to.part.ValidateMessage(w.ctx, cloneOrSame(x))
+			vo.judge(to, x, errClass(verr), verr, "forged variant ["+what+"]")
+			if w.c.Chance(300) && w.viol == nil {
+				_, _ = to.part.ValidateMessage(w.ctx, cloneOrSame(msg))
+				_, verr2 := to.part.ValidateMessage(w.ctx, cloneOrSame(x))
+				if errClass(verr2) != errClass(verr) {
+					w.fail("C05", "verdict_depends_on_history", "repeat", "forged variant [%s] of %s judged %q first and %q after its valid twin was validated again", what, msgStr(msg), errClass(verr), errClass(verr2))
+				}
+			}
+		}
+	case "C13":
+		if w.c.Chance(350) {
+			vo.twoStage(to, msg)
+		}
+	}
+}
+
+// ---- C13 ----------------------------------------------------------------------------------
+
+// complete fills a stripped message with chain c exactly like the production code does.
+func (vo *validatorOracle) complete(p *gpbft.PartialGMessage, c *gpbft.ECChain) {
+	p.Vote.Value = c
+	pmsg.VerifInferJustificationVoteValue(p)
+}
+
+func (vo *validatorOracle) strip(m *gpbft.GMessage) *gpbft.PartialGMessage {
+	p, err := vo.pmm.ToPartialGMessage(copyMsg(m))
+	if err != nil {
+		return nil
+	}
+	return p
+}
+
+func (vo *validatorOracle) twoStage(to *Member, m *gpbft.GMessage) {
+	w, c := vo.w, vo.w.c
+	info := w.instance(m.Vote.Instance)
+	if info == nil {
+		return
+	}
+	orig := m.Vote.Value
+	// round trip on valid messages
+	if valid, known, _ := vo.refValid(m); known && valid {
+		p := vo.strip(m)
+		if p == nil {
+			w.fail("C13", "strip_failed", "strip", "cannot strip %s", msgStr(m))
+			return
+		}
+		vo.complete(p, orig)
+		var a, b bytes.Buffer
+		_ = p.GMessage.MarshalCBOR(&a)
+		_ = m.MarshalCBOR(&b)
+		if !bytes.Equal(a.Bytes(), b.Bytes()) {
+			w.fail("C13", "strip_complete_not_identity", "roundtrip", "stripping %s and completing it with its own chain yields a different message", msgStr(m))
+			return
+		}
+		w.r.Probe("c13_roundtrip")
+	}
+	// optionally start from a forged variant
+	base := m
+	what := "delivered message"
+	if c.Chance(300) {
+		if x, wh := vo.forge(m); x != nil {
+			base, what = x, "forged variant ["+wh+"]"
+		}
+	}
+	alt := func() *gpbft.ECChain {
+		if w.byz != nil {
+			for i := 0; i < 4; i++ {
+				if v := w.byz.pickValue(m.Vote.Instance, m.Vote.Phase, false); v != nil && !tipsetsEqual(v, base.Vote.Value) {
+					return v
+				}
+			}
+		}
+		if info.Base != nil {
+			return &gpbft.ECChain{TipSets: []*gpbft.TipSet{info.Base, mkTipset(info.Base.Epoch+9, "oracle-alt")}}
+		}
+		return nil
+	}
+	trials := 1 + c.Intn(4)
+	for t := 0; t < trials && w.viol == nil; t++ {
+		// announced key
+		var k gpbft.ECChainKey
+		kWhat := "matching key"
+		switch c.Pick([]int{5, 2, 3}) {
+		case 0:
+			k = base.Vote.Value.Key()
+		case 1:
+			kWhat = "zero key"
+		case 2:
+			if a := alt(); a != nil {
+				k = a.Key()
+				kWhat = "key of another chain"
+			} else {
+				k = base.Vote.Value.Key()
+			}
+		}
+		// completing chain
+		var cc *gpbft.ECChain
+		cWhat := "original chain"
+		switch c.Pick([]int{5, 3, 2}) {
+		case 0:
+			cc = base.Vote.Value
+		case 1:
+			cc = alt()
+			cWhat = "another chain"
+			if kWhat == "key of another chain" && c.Chance(700) {
+				// the chain that matches the announced (foreign) key
+				for _, v := range w.byz.chains[m.Vote.Instance] {
+					if v.Key() == k {
+						cc = v
+						cWhat = "the chain matching the announced key"
+					}
+				}
+			}
+		case 2:
+			cc = &gpbft.ECChain{}
+			cWhat = "bottom"
+		}
+		if cc == nil {
+			cc = &gpbft.ECChain{}
+		}
+		p := vo.strip(base)
+		if p == nil {
+			return
+		}
+		p.VoteValueKey = k
+		// completed message for the one-shot path
+		full := vo.strip(base)
+		full.VoteValueKey = k
+		vo.complete(full, cc)
+		oneShot := func() bool {
+			_, err := to.part.ValidateMessage(w.ctx, cloneOrSame(full.GMessage))
+			return err == nil
+		}
+		twoStage := func() (bool, string) {
+			pv, err := to.part.PartiallyValidateMessage(w.ctx, p)
+			if err != nil {
+				return false, "partial: " + errClass(err)
+			}
+			vo.complete(p, cc)
+			if _, err := to.part.FullyValidateMessage(w.ctx, pv); err != nil {
+				return false, "full: " + errClass(err)
+			}
+			return true, "accepted"
+		}
+		var one, two bool
+		var how string
+		if c.Chance(500) {
+			one = oneShot()
+			two, how = twoStage()
+		} else {
+			two, how = twoStage()
+			one = oneShot()
+		}
+		keyOK := k == cc.Key()
+		w.r.Fault("two_stage_trial")
+		if two {
+			w.r.Probe("c13_two_stage_accept")
+		}
+		if two != (keyOK && one) {
+			w.fail("C13", "two_stage_differs_from_one_shot", fmt.Sprintf("two=%v,one=%v,key=%v", two, one, keyOK),
+				"%s %s announced with %s and completed with %s: two-stage validation %s, one-shot validation of the completed message accepts=%v, announced key matches the completing chain=%v",
+				what, msgStr(base), kWhat, cWhat, how, one, keyOK)
+		}
+	}
+}
